@@ -4,15 +4,17 @@ use crate::report::Tier;
 pub mod c06;
 pub mod c14;
 pub mod c17;
+pub mod c18;
 pub mod c20;
 
-pub const ALL: &[&str] = &["C06", "C14", "C17", "C20"];
+pub const ALL: &[&str] = &["C06", "C14", "C17", "C18", "C20"];
 
 pub fn get(id: &str, tier: Tier) -> Option<Prop> {
   Some(match id {
     "C06" => c06::prop(tier),
     "C14" => c14::prop(tier),
     "C17" => c17::prop(tier),
+    "C18" => c18::prop(tier),
     "C20" => c20::prop(tier),
     _ => return None,
   })
